@@ -22,7 +22,7 @@ ANCHORS = ["hashtable.py::HashTable.__init__", "hashtable.py::HashTable._build_r
            "hashtable.py::HashTable._get_indices", "hashtable.py::HashTable.contains", "hashtable.py::HashSet.contains", "hashtable.py::HashTable._fill_values",
            "hashtable.py::HashTable.__setitem__", "hashtable.py::HashTable.__getitem__", "hashtable.py::HashTable.fill", "hashtable.py::HashTable.__add__",
            "hashtable.py::HashTable.__eq__", "hashtable.py::HashTable.items", "hashtable.py::HashTable.to_dict", "hashtable.py::zeros_like", "hashtable.py::ones_like"]
-OPS = ["get1", "getv", "getmiss", "set1", "setv", "setvv", "fill", "contains", "hs_contains1", "hs_containsv", "zeros_like", "ones_like", "add", "eq", "items", "to_dict", "getwide"]
+OPS = ["get1", "getv", "getmiss", "set1", "setv", "setvv", "fill", "contains", "hs_contains1", "hs_containsv", "zeros_like", "ones_like", "add", "eq", "items", "to_dict", "getwide", "getreuse"]
 FLOOR_TAGS = ["op:" + o for o in OPS] + ["init:scalar", "init:array", "mod:None", "mod:1", "mod:explicit", "keys:neg", "keys:big", "keys:dense", "keys:small",
                                          "kd:int8", "kd:uint64", "kd:list", "kd:int64", "state:scalar-at-first-write", "derived-table-used"]
 FLOOR_MONITORS = ["c11:step", "c11:readback", "c11:keyset", "c11:must-refuse", "c11:caller-arrays"]
@@ -114,6 +114,24 @@ def run(case):
             e = [md[k] for k in q]
             if not a.ok or a.value.shape != (len(q),) or not all(eqval(x, y) for x, y in zip(a.value.tolist(), e)):
                 bad = "table[%s %s] gives %s, the dictionary says %s" % (qa.dtype, short(q, 100), repr(a) if not a.ok else short(a.value, 120), short(e, 120))
+        elif name == "getreuse":
+            # one query array object, looked up, refilled in place by the caller, looked up again (and once more with an absent key)
+            q1, q2 = op["keys"], op["keys2"]
+            qa = qarr(q1, kd)
+            a1 = attempt(lambda: np.asarray(tb[qa]).tolist())
+            qa[...] = qarr(q2, kd)
+            a2 = attempt(lambda: np.asarray(tb[qa]).tolist())
+            e1, e2 = [md[k] for k in q1], [md[k] for k in q2]
+            if not a1.ok or not all(eqval(x, y) for x, y in zip(a1.value, e1)) or len(a1.value) != len(e1):
+                bad = "table[%s] gives %s, the dictionary says %s" % (short(q1, 80), repr(a1) if not a1.ok else a1.value, e1)
+            elif not a2.ok or len(a2.value) != len(e2) or not all(eqval(x, y) for x, y in zip(a2.value, e2)):
+                bad = "the query array %s was refilled in place with %s and looked up again: got %s, the dictionary says %s" % (short(q1, 80), short(q2, 80), repr(a2) if not a2.ok else a2.value, e2)
+            elif op.get("miss") is not None:
+                qa[0] = np.asarray(op["miss"]).astype(qa.dtype)
+                CTX.tick("c11:must-refuse")
+                a3 = attempt(lambda: tb[qa])
+                if a3.ok:
+                    bad = "after the caller put the absent key %s into the same query array, the lookup was answered: %s" % (op["miss"], short(a3.value, 80))
         elif name == "getmiss":
             q = op["keys"]
             qa = np.array(q, dtype=op.get("qdtype") or (kd if kd else np.int64))
@@ -317,6 +335,12 @@ def gen_history(rng, tier, kd="pick", style=None, mod="pick", scalar_init=None, 
             else:
                 op["keys"] = [rng.choice(keys) for _ in range(rng.randint(1, 5))]
                 op["qdtype"] = "int64"
+        elif name == "getreuse":
+            m_ = rng.randint(1, 5)
+            op["keys"] = [rng.choice(keys) for _ in range(m_)]
+            op["keys2"] = [rng.choice(keys) for _ in range(m_)]
+            x = nonkey()
+            op["miss"] = x if (x is not None and lo <= x <= hi) else None
         elif name == "getmiss":
             wide = widenable and rng.random() < 0.4
             x = nonkey(wide)
